@@ -1,11 +1,11 @@
 (* C04 model: optimum_poling_period and CrystalSetup::optimum_theta around the two-vertex Nelder–Mead model, composed from
-   the definitions translated from the source (Gen/Poling.v).  Definitions only.
+   the definitions translated from the source (Gen/AutoCalc.v).  Definitions only.
 
    Oracles (Section variables): the longitudinal mismatch as a function of the poling / of the crystal angle (built from
    public API in the harness, from Model/Idler.v in Proofs/C04_collinear.v), the five point operations of the simplex
    and its termination test (any: the theorems do not depend on them). *)
 From Coq Require Import Reals Bool.
-From SpdVerif Require Import Base.Rx Base.Vec3 Gen.Idler Gen.Poling Model.Idler Model.NM1d.
+From SpdVerif Require Import Base.Rx Base.Vec3 Gen.Idler Gen.AutoCalc Model.Idler Model.NM1d.
 Local Open Scope R_scope.
 
 Definition Rltb (a b : R) : bool := if Rlt_dec a b then true else false.
